@@ -1,18 +1,236 @@
 /-
 C09 — the frequent-directions sketch brackets the true second moment.
 
-Model: `Model/FD.lean` (generic `fdStep`/`stepO`, instances `dsFdUpdateRootO`, `sketchyUpdateAxisO`,
-`ocoFdUpdateO`; executed at `Float` by `Drv/C09.lean` with the SVD supplied by LAPACK and checked against
-`SvdSpec` at run time).
+Model: `Model/FD.lean` — generic `fdStep` / `stepO` / `fdRunO` (SVD kernel as a parameter constrained by `SvdSpec`),
+instances `dsFdUpdateRootO` (Distributed Shampoo `_fd_update_root`), `sketchyUpdateAxisO` (Tearfree Sketchy
+`_update_axis`), `ocoFdUpdateO` (OCO `_fd_update_fn`). `Drv/C09.lean` executes exactly these definitions at `Float`;
+LAPACK supplies the SVD factors and the driver checks them against `SvdSpec` of the model's own `B` on every step.
+
+All statements hold over every linearly ordered field with trivial star (ℚ, ℝ, …), for every dimension `d`, sketch
+rank `k ≤ d`, number of gradient columns `m`, decay `0 ≤ β`, every state and every history; the Loewner order is
+Mathlib's `Matrix.PosSemidef`. `sqrt` is a parameter with the specification `sqrt x * sqrt x = x` for `0 ≤ x`
+(`Real.sqrt` at ℝ), the SVD a parameter meeting `SvdSpec` on the matrices it is actually called with.
+
+Not modelled (identities under `SvdSpec`, exercised only by the correspondence run and the direct oracle): the
+unit-norm and padding-mass guards of `_fd_update_root`, floating-point accuracy of the SVD.
 -/
-import PrecondVerif.Model.FD
+import PrecondVerif.Lemmas.FD
+import Mathlib.Analysis.Real.Sqrt
+import Mathlib.Algebra.Order.Star.Real
+
+set_option linter.unusedSectionVars false
+set_option linter.overlappingInstances false
 
 namespace PrecondVerif.C09
-open PrecondVerif.FD
+open PrecondVerif.FD Matrix
 
-/-- **Escaped-mass recurrence** `t' = β·t + ρ`, for any scalar type, any SVD kernel. -/
-theorem fd_tail_recurrence {α : Type} [Zero α] [One α] [Add α] [Sub α] [Mul α] [LT α] [DecidableLT α]
-    {d k m : Nat} (svd : SvdFn α d (k + m)) (sqrt : α → α) (β : α) (st : State α d k) (G : Mat α d m) :
+section Any
+variable {α : Type} [Zero α] [One α] [Add α] [Sub α] [Mul α] [LT α] [DecidableLT α] {d k m : Nat}
+
+/-- **Escaped-mass recurrence** `t' = β·t + ρ` with `ρ = s[k]²` the eigenvalue removed at this step — for any
+scalar type (floats included) and any SVD kernel. -/
+theorem fd_tail_recurrence (svd : SvdFn α d (k + m)) (sqrt : α → α) (β : α) (st : State α d k) (G : Mat α d m) :
     (fdStep svd sqrt β st G).t = β * st.t + rho k (svd (fdB sqrt β st G)) := rfl
+
+/-- the same recurrence in `_fd_update_root` (before the clamp `where(new_tail <= 0, 0, new_tail)`, which is the
+identity on non-negative values), in Sketchy's `_update_axis` and in the OCO sketch. -/
+theorem fd_tail_recurrence_instances [Max α] (pw sqrt : α → α) (cfg : DsCfg α) (st : State α d k) (o : SvdOut α d)
+    (hps : cfg.ps ≠ 0) (epsilon : α) (relative : Bool) (β : α) (sk : SkState α d k)
+    {n : Nat} (oc : OcoState α k n) (oo : SvdOut α n) :
+    (dsFdUpdateRootO pw cfg st o).st.t
+        = (if 0 < cfg.β * st.t + rho k o then cfg.β * st.t + rho k o else 0) ∧
+    (sketchyUpdateAxisO sqrt pw epsilon relative β sk o).st.t
+        = sk.t * β + relu (cutoff k o) * relu (cutoff k o) ∧
+    (ocoFdUpdateO sqrt oc oo).t = oc.t + rho k oo := by
+  refine ⟨?_, rfl, rfl⟩
+  simp only [dsFdUpdateRootO, if_neg hps]
+  rfl
+
+end Any
+
+section Field
+variable {R : Type} [Field R] [LinearOrder R] [IsStrictOrderedRing R] [StarRing R] [TrivialStar R]
+  [StarOrderedRing R] {d k m : ℕ}
+
+/-- **One-step bracket.** If `V diag(l) Vᵀ ≤ C ≤ V diag(l) Vᵀ + t·I`, then after one FD step with decay `0 ≤ β`,
+gradient factor `G` and ANY SVD meeting its specification on the matrix `B = [√β V diag(√l) | G]` it is given,
+`V' diag(l') V'ᵀ ≤ β·C + G Gᵀ ≤ V' diag(l') V'ᵀ + t'·I`, and `l' ≥ 0`, `t' ≥ 0`. -/
+theorem fd_step_bracket (svd : SvdFn R d (k + m)) (sqrt : R → R) (hsq : ∀ x, 0 ≤ x → sqrt x * sqrt x = x)
+    (β : R) (hβ : 0 ≤ β) (hk : k ≤ d) (st : State R d k) (hl : ∀ a, 0 ≤ st.l a) (ht : 0 ≤ st.t) (G : Mat R d m)
+    (hsvd : SvdSpec (fdB sqrt β st G) (svd (fdB sqrt β st G)))
+    (C : Matrix (Fin d) (Fin d) R) (hlo : (C - toM (sketch st)).PosSemidef)
+    (hhi : (toM (sketch st) + st.t • (1 : Matrix (Fin d) (Fin d) R) - C).PosSemidef) :
+    (β • C + toM (outer G) - toM (sketch (fdStep svd sqrt β st G))).PosSemidef ∧
+    (toM (sketch (fdStep svd sqrt β st G)) + (fdStep svd sqrt β st G).t • (1 : Matrix (Fin d) (Fin d) R)
+      - (β • C + toM (outer G))).PosSemidef ∧
+    (∀ a, 0 ≤ (fdStep svd sqrt β st G).l a) ∧ 0 ≤ (fdStep svd sqrt β st G).t := by
+  rw [sketch_eq] at hlo hhi
+  rw [sketch_eq, outer_eq]
+  obtain ⟨h1, h2⟩ := stepO_bracket sqrt hsq β hβ hk st hl G _ hsvd C hlo hhi
+  exact ⟨h1, h2, stepO_l_nonneg β st.t _, stepO_t_nonneg β st.t hβ ht _⟩
+
+/-- **Whole-history bracket** (induction over every history, from the zero state): the sketch after any history
+`gs` brackets the exact discounted second moment `covFrom β 0 gs` (`C ← β·C + G Gᵀ`), with `l ≥ 0`, `t ≥ 0`. -/
+theorem fd_history_bracket (svd : SvdFn R d (k + m)) (sqrt : R → R) (hsq : ∀ x, 0 ≤ x → sqrt x * sqrt x = x)
+    (β : R) (hβ : 0 ≤ β) (hk : k ≤ d) (gs : List (Mat R d m))
+    (hsvd : SpecAlong svd sqrt β (State.zero d k) gs) :
+    (toM (covFrom β (fun _ _ => 0) gs) - toM (sketch (fdRun svd sqrt β gs))).PosSemidef ∧
+    (toM (sketch (fdRun svd sqrt β gs)) + (fdRun svd sqrt β gs).t • (1 : Matrix (Fin d) (Fin d) R)
+      - toM (covFrom β (fun _ _ => 0) gs)).PosSemidef ∧
+    (∀ a, 0 ≤ (fdRun svd sqrt β gs).l a) ∧ 0 ≤ (fdRun svd sqrt β gs).t := by
+  rw [covFrom_eq, sketch_eq]
+  have hz : toM (fun _ _ => 0 : Mat R d d) = 0 := rfl
+  rw [hz]
+  have h0 : ((0 : Matrix (Fin d) (Fin d) R) - sketchM (State.zero d k : State R d k)).PosSemidef := by
+    rw [sketchM_zero, sub_zero]; exact PosSemidef.zero
+  have h1 : (sketchM (State.zero d k : State R d k) + (State.zero d k : State R d k).t • (1 : Matrix (Fin d) (Fin d) R)
+      - 0).PosSemidef := by
+    rw [sketchM_zero]; simpa [State.zero] using (PosSemidef.zero : (0 : Matrix (Fin d) (Fin d) R).PosSemidef)
+  exact fdRunFrom_bracket svd sqrt hsq β hβ hk gs (State.zero d k) (fun _ => le_rfl) le_rfl hsvd 0 h0 h1
+
+/-- the same for the run the driver executes (`fdRunO`: SVD outputs supplied step by step, each meeting `SvdSpec`
+of the model's own `fdB` at that step), from any bracketed state. -/
+theorem fd_history_bracket_supplied (sqrt : R → R) (hsq : ∀ x, 0 ≤ x → sqrt x * sqrt x = x)
+    (β : R) (hβ : 0 ≤ β) (hk : k ≤ d) (steps : List (Mat R d m × SvdOut R d)) (st : State R d k)
+    (hl : ∀ a, 0 ≤ st.l a) (ht : 0 ≤ st.t) (hsvd : SpecAlongO sqrt β st steps)
+    (C : Mat R d d) (hlo : (toM C - toM (sketch st)).PosSemidef)
+    (hhi : (toM (sketch st) + st.t • (1 : Matrix (Fin d) (Fin d) R) - toM C).PosSemidef) :
+    (toM (covFrom β C (steps.map Prod.fst)) - toM (sketch (fdRunO β st (steps.map Prod.snd)))).PosSemidef ∧
+    (toM (sketch (fdRunO β st (steps.map Prod.snd)))
+      + (fdRunO β st (steps.map Prod.snd)).t • (1 : Matrix (Fin d) (Fin d) R)
+      - toM (covFrom β C (steps.map Prod.fst))).PosSemidef := by
+  rw [sketch_eq] at hlo hhi
+  rw [covFrom_eq, sketch_eq]
+  exact fdRunO_bracket sqrt hsq β hβ hk steps st hl ht hsvd (toM C) hlo hhi
+
+/-- **Columns orthonormal or zero**: `V'ᵀ V' = diag(kept)`. -/
+theorem fd_columns_orthonormal_or_zero (svd : SvdFn R d (k + m)) (sqrt : R → R) (β : R) (hk : k ≤ d)
+    (st : State R d k) (G : Mat R d m) (hsvd : SvdSpec (fdB sqrt β st G) (svd (fdB sqrt β st G))) (a b : Fin k) :
+    colGram (fdStep svd sqrt β st G).V a b
+      = if a = b ∧ kept k (svd (fdB sqrt β st G)) a = true then 1 else 0 :=
+  stepO_colGram hsvd.specM hk β st.t a b
+
+/-- **Stored inverse roots** equal `pw (l' + t' + eps)` on the kept directions (0 on the zeroed ones), where
+`pw x` stands for `x^(-1/p)`; the escaped mass is inverted as `pw (t' + eps)` when positive. DS uses `eps = 0`
+(its ridge enters `l` before the step), Sketchy its (relative) epsilon. -/
+theorem fd_inverse_roots (svd : SvdFn R d (k + m)) (sqrt pw : R → R) (eps β : R) (st : State R d k) (G : Mat R d m)
+    (a : Fin k) :
+    invRoots k pw eps β st.t (svd (fdB sqrt β st G)) a
+      = (if kept k (svd (fdB sqrt β st G)) a = true
+          then pw ((fdStep svd sqrt β st G).l a + (fdStep svd sqrt β st G).t + eps) else 0) ∧
+    invTail pw eps (fdStep svd sqrt β st G).t
+      = (if 0 < (fdStep svd sqrt β st G).t then pw ((fdStep svd sqrt β st G).t + eps) else 0) :=
+  ⟨invRoots_eq pw eps β st.t _ a, rfl⟩
+
+/-- **Zero-gradient step**: sketch and escaped mass are discounted by the same factor `β`
+(`V' diag(l') V'ᵀ = β · V diag(l) Vᵀ`, `t' = β·t`). -/
+theorem fd_zero_grad_step (svd : SvdFn R d (k + m)) (sqrt : R → R) (hsq : ∀ x, 0 ≤ x → sqrt x * sqrt x = x)
+    (β : R) (hβ : 0 ≤ β) (hk : k ≤ d) (st : State R d k) (hl : ∀ a, 0 ≤ st.l a)
+    (hsvd : SvdSpec (fdB sqrt β st (fun _ _ => 0 : Mat R d m)) (svd (fdB sqrt β st (fun _ _ => 0))))  :
+    toM (sketch (fdStep svd sqrt β st (fun _ _ => 0 : Mat R d m))) = β • toM (sketch st) ∧
+    (fdStep svd sqrt β st (fun _ _ => 0 : Mat R d m)).t = β * st.t := by
+  rw [sketch_eq, sketch_eq]
+  exact stepO_zero_grad sqrt hsq β hβ hk st hl _ hsvd
+
+/-- **ext — a history of rank ≤ k is tracked exactly**: if every gradient factor lies in a fixed `k`-dimensional
+subspace (`G_i = W A_i`, `W : d × k`), the sketch equals the exact second moment and no mass escapes (`t = 0`). -/
+theorem fd_low_rank_exact (svd : SvdFn R d (k + m)) (sqrt : R → R) (hsq : ∀ x, 0 ≤ x → sqrt x * sqrt x = x)
+    (β : R) (hβ : 0 ≤ β) (hk : k ≤ d) (W : Matrix (Fin d) (Fin k) R) (gs : List (Mat R d m))
+    (hW : ∀ G ∈ gs, ∃ A : Matrix (Fin k) (Fin m) R, toM G = W * A)
+    (hsvd : SpecAlong svd sqrt β (State.zero d k) gs) :
+    toM (sketch (fdRun svd sqrt β gs)) = toM (covFrom β (fun _ _ => 0) gs) ∧ (fdRun svd sqrt β gs).t = 0 := by
+  rw [covFrom_eq, sketch_eq]
+  have hz : toM (fun _ _ => 0 : Mat R d d) = 0 := rfl
+  rw [hz]
+  have := fdRunFrom_low_rank svd sqrt hsq β hβ hk W gs hW (State.zero d k) (fun _ => le_rfl) hsvd rfl
+    ⟨0, by rw [sketchM_zero]; simp⟩
+  rwa [sketchM_zero] at this
+
+/-- **Distributed Shampoo instance**: `_fd_update_root` (with `padding_start > 0`) keeps the bracket around
+`β·C + G̃ G̃ᵀ`, where `G̃` is the padding-masked gradient factor and the sketch entering the step is the
+re-masked, ridge-shifted one (`dsInput`: the per-step ridge the configuration adds is part of `C`). -/
+theorem ds_fd_update_root_bracket [Max R] (sqrt pw : R → R) (hsq : ∀ x, 0 ≤ x → sqrt x * sqrt x = x)
+    (cfg : DsCfg R) (hβ : 0 ≤ cfg.β) (hps : cfg.ps ≠ 0) (hk : k ≤ d) (st : State R d k)
+    (hl : ∀ a, 0 ≤ (dsInput cfg st).l a) (ht : 0 ≤ st.t) (G : Mat R d d) (o : SvdOut R d)
+    (hsvd : SvdSpec (dsB sqrt cfg st G) o)
+    (C : Matrix (Fin d) (Fin d) R) (hlo : (C - toM (sketch (dsInput cfg st))).PosSemidef)
+    (hhi : (toM (sketch (dsInput cfg st)) + st.t • (1 : Matrix (Fin d) (Fin d) R) - C).PosSemidef) :
+    (cfg.β • C + toM (outer (dsMaskG cfg.ps G)) - toM (sketch (dsFdUpdateRootO pw cfg st o).st)).PosSemidef ∧
+    (toM (sketch (dsFdUpdateRootO pw cfg st o).st)
+      + (dsFdUpdateRootO pw cfg st o).st.t • (1 : Matrix (Fin d) (Fin d) R)
+      - (cfg.β • C + toM (outer (dsMaskG cfg.ps G)))).PosSemidef := by
+  rw [sketch_eq] at hlo hhi
+  rw [sketch_eq, outer_eq]
+  have ht' : 0 ≤ (stepO k cfg.β st.t o).t := stepO_t_nonneg cfg.β st.t hβ ht o
+  have hS : sketchM (dsFdUpdateRootO pw cfg st o).st = sketchM (stepO k cfg.β st.t o) := by
+    simp [dsFdUpdateRootO, hps, sketchM]
+  have hT : (dsFdUpdateRootO pw cfg st o).st.t = (stepO k cfg.β st.t o).t := by
+    simp only [dsFdUpdateRootO, hps, if_false]
+    split_ifs with hpos
+    · rfl
+    · exact le_antisymm (not_lt.mp hpos) ht' |>.symm
+  rw [hS, hT]
+  exact stepO_bracket sqrt hsq cfg.β hβ hk (dsInput cfg st) hl (dsMaskG cfg.ps G) o hsvd C hlo hhi
+
+/-- **Tearfree Sketchy instance**: `_update_axis` stores ROOTS `e` of the sketch eigenvalues; the state it
+denotes, `(V', e'², t')`, is exactly the generic step (`sqrt ≥ 0` is the extra kernel hypothesis), so the bracket is
+kept around `β·C + G Gᵀ` with `β = second_moment_decay` — the sketch is discounted by `sqrt(β)` on the roots and the
+escaped mass by `β`. -/
+theorem sketchy_update_axis_bracket (sqrt pw : R → R) (hsq : ∀ x, 0 ≤ x → sqrt x * sqrt x = x)
+    (hs0 : ∀ x, 0 ≤ sqrt x) (epsilon : R) (relative : Bool) (β : R) (hβ : 0 ≤ β) (hk : k ≤ d)
+    (st : SkState R d k) (G : Mat R d m) (o : SvdOut R d) (hsvd : SvdSpec (sketchyB sqrt β st G) o)
+    (C : Matrix (Fin d) (Fin d) R) (hlo : (C - toM (sketch st.denote)).PosSemidef)
+    (hhi : (toM (sketch st.denote) + st.t • (1 : Matrix (Fin d) (Fin d) R) - C).PosSemidef) :
+    (sketchyUpdateAxisO sqrt pw epsilon relative β st o).st.denote = stepO k β st.t o ∧
+    (β • C + toM (outer G)
+      - toM (sketch (sketchyUpdateAxisO sqrt pw epsilon relative β st o).st.denote)).PosSemidef ∧
+    (toM (sketch (sketchyUpdateAxisO sqrt pw epsilon relative β st o).st.denote)
+      + (sketchyUpdateAxisO sqrt pw epsilon relative β st o).st.t • (1 : Matrix (Fin d) (Fin d) R)
+      - (β • C + toM (outer G))).PosSemidef := by
+  rw [sketch_eq] at hlo hhi
+  rw [sketch_eq, outer_eq]
+  exact ⟨sketchy_denote sqrt pw hsq hs0 epsilon relative β st o hsvd.nonneg,
+    sketchy_bracket sqrt pw hsq hs0 epsilon relative β hβ hk st G o hsvd C hlo hhi⟩
+
+end Field
+
+/-! ### the defect repaired by `fix:` 41a2a86 (D8), kept as a negative theorem -/
+
+/-- **Negative.** The unrepaired Tearfree Sketchy recurrence `tail * sqrt(decay) + ρ` violates the escaped-mass
+recurrence: at `decay = 1/4` (`sqrt = 1/2`) a zero-gradient step (`ρ = 0`) from `t = 1` leaves `t' = 1/2`, while
+the sketch (and the property's `β·t + ρ`) is discounted to `1/4`. -/
+theorem sketchy_tail_sqrt_decay_violates :
+    sketchyTailUnrepaired (1 / 2 : ℚ) 1 0 = 1 / 2 ∧ (1 / 2 : ℚ) * (1 / 2) = 1 / 4 ∧
+    sketchyTailUnrepaired (1 / 2 : ℚ) 1 0 ≠ (1 / 4 : ℚ) * 1 + 0 := by
+  refine ⟨by norm_num [sketchyTailUnrepaired], by norm_num, by norm_num [sketchyTailUnrepaired]⟩
+
+/-! ### the hypotheses are satisfiable: a concrete non-trivial instance at ℝ -/
+
+/-- `d = 2`, `k = 1`, one gradient column `(3, 4)ᵀ/5·5 = (3, 4)`: `B = [0 | g]`, `B Bᵀ = g gᵀ` has the
+eigen-decomposition `U = [[3/5, -4/5], [4/5, 3/5]]`, `s = (5, 0)`. -/
+noncomputable def exG : Mat ℝ 2 1 := fun i _ => if i = 0 then 3 else 4
+noncomputable def exOut : SvdOut ℝ 2 :=
+  { U := fun i j => if i = 0 then (if j = 0 then 3 / 5 else -4 / 5) else (if j = 0 then 4 / 5 else 3 / 5)
+    s := fun a => if a = 0 then 5 else 0 }
+
+example : SvdSpec (fdB Real.sqrt (1 / 2) (State.zero 2 1) exG) exOut where
+  uOrthoRows := by
+    intro i j
+    fin_cases i <;> fin_cases j <;> norm_num [sumFin_eq, Fin.sum_univ_two, exOut]
+  uOrthoCols := by
+    intro a b
+    fin_cases a <;> fin_cases b <;> norm_num [sumFin_eq, Fin.sum_univ_two, exOut]
+  recon := by
+    intro i j
+    simp only [outer, sumFin_eq, fdB, Fin.sum_univ_add, Fin.addCases_left, Fin.addCases_right, State.zero,
+      Fin.sum_univ_one, Fin.sum_univ_two]
+    fin_cases i <;> fin_cases j <;> norm_num [exOut, exG]
+  nonneg := by
+    intro a; fin_cases a <;> norm_num [exOut]
+  sorted := by
+    intro a b hab
+    fin_cases a <;> fin_cases b <;> simp_all [exOut]
+
+example : ∀ x : ℝ, 0 ≤ x → Real.sqrt x * Real.sqrt x = x := fun _ hx => Real.mul_self_sqrt hx
 
 end PrecondVerif.C09
